@@ -278,6 +278,22 @@ func c15One(c *mc.Ctx, k c15Case) {
 			_ = n2
 			if !bytes.Equal(nw.Bytes(), copying) {
 				bad("end-relative-splice", "splicing at positions counted from the end of the buffer (remainCap) differs from the copying path")
+				return
+			}
+			// the direct writer is an interface: a caller may implement it on a struct VALUE (or a func type) as well as on
+			// a pointer; the stream is the same
+			for _, mk := range []func(inner *endWriter) thrift.NocopyWriter{
+				func(inner *endWriter) thrift.NocopyWriter { return valWriter{inner: inner, tag: 7} },
+				func(inner *endWriter) thrift.NocopyWriter { return funcWriter(inner.WriteDirect) },
+			} {
+				vw := &endWriter{}
+				vb := vw.Malloc(total)
+				w = mk(vw)
+				write(vb)
+				if !bytes.Equal(vw.Bytes(), copying) {
+					bad("non-pointer-writer", "with a direct writer implemented on a non-pointer type (%T) the stream differs from the copying path", w)
+					return
+				}
 			}
 		}
 	})
@@ -425,6 +441,20 @@ type endWriter struct {
 	wbuf [][]byte
 	wend []int
 }
+
+// valWriter / funcWriter: the same writer behind a struct value and behind a func type.
+type valWriter struct {
+	inner *endWriter
+	tag   int
+}
+
+func (v valWriter) WriteDirect(b []byte, remainCap int) error {
+	return v.inner.WriteDirect(b, remainCap)
+}
+
+type funcWriter func(b []byte, remainCap int) error
+
+func (f funcWriter) WriteDirect(b []byte, remainCap int) error { return f(b, remainCap) }
 
 func (p *endWriter) Malloc(n int) []byte {
 	p.wbuf, p.wend = p.wbuf[:0], p.wend[:0]
